@@ -6,7 +6,7 @@
 //! file format for client compatibility.
 
 use std::collections::HashMap;
-use std::io::Cursor;
+use std::io::{Cursor, SeekFrom};
 use std::sync::{Arc, Mutex};
 use std::time::{Duration, SystemTime, UNIX_EPOCH};
 
@@ -104,6 +104,26 @@ impl MessageHeader {
     }
 }
 
+/// Read a byte string whose length field precedes it
+///
+/// The length is a u32 taken from the message: it must describe bytes the
+/// message holds before it sizes the buffer.
+#[binrw::parser(reader)]
+fn read_counted_bytes(count: u32) -> binrw::BinResult<Vec<u8>> {
+    let pos = reader.stream_position()?;
+    let end = reader.seek(SeekFrom::End(0))?;
+    reader.seek(SeekFrom::Start(pos))?;
+    if u64::from(count) > end.saturating_sub(pos) {
+        return Err(binrw::Error::AssertFail {
+            pos,
+            message: format!("byte string of {count} bytes exceeds the message"),
+        });
+    }
+    let mut bytes = vec![0u8; count as usize];
+    reader.read_exact(&mut bytes)?;
+    Ok(bytes)
+}
+
 /// File request payload
 #[derive(Debug, Clone, BinRead, BinWrite)]
 #[br(big)]
@@ -118,7 +138,7 @@ pub struct FileRequestPayload {
     /// Length of the identifier that follows
     pub identifier_length: u32,
     /// File path or `FileDataID` as bytes
-    #[br(count = identifier_length)]
+    #[br(parse_with = read_counted_bytes, args(identifier_length))]
     pub identifier: Vec<u8>,
 }
 
@@ -199,7 +219,7 @@ pub struct FileResponsePayload {
     /// MD5 hash of uncompressed data
     pub content_hash: [u8; 16],
     /// File content data
-    #[br(count = compressed_size)]
+    #[br(parse_with = read_counted_bytes, args(compressed_size))]
     pub data: Vec<u8>,
 }
 
@@ -272,7 +292,7 @@ pub struct StatusRequestPayload {
     /// Installation name length (if `status_type` == 1)
     pub name_length: u32,
     /// Installation name
-    #[br(count = name_length)]
+    #[br(parse_with = read_counted_bytes, args(name_length))]
     pub installation_name: Vec<u8>,
 }
 
@@ -336,7 +356,7 @@ pub struct StatusResponsePayload {
     /// JSON status data length
     pub status_data_length: u32,
     /// JSON status data
-    #[br(count = status_data_length)]
+    #[br(parse_with = read_counted_bytes, args(status_data_length))]
     pub status_data: Vec<u8>,
 }
 
